@@ -663,7 +663,8 @@ class Gen:
         self.features.add("docstring")
 
     def nondoc_expr(self, ind):
-        self.emit(ind, self.rng.choice(['f"fstring {1}"', 'b"bytes"', "1", "...", "print", "(\"paren\" if 1 else 2)"]))
+        self.emit(ind, self.rng.choice(['f"fstring {1}"', 'b"bytes"', "1", "...", "print", "(\"paren\" if 1 else 2)",
+                                        '{"k": 1, **{}}', '{**{}, "k": 2, **{}}', "print(**{'end': '', **{}})", "(lambda *, k=1, j: j)"]))
 
     # -- bodies
     def body(self, kind, depth, ind):
@@ -901,7 +902,9 @@ class Gen:
             self.lines.append("    " * ind + ("async " if is_async else "") + f"def {name}(self=None,\n" + "    " * (ind + 2) + "*args):")
             self.features.add("header-multiline")
         else:
-            self.emit(ind, ("async " if is_async else "") + f"def {name}(self=None, *args):")
+            self.emit(ind, ("async " if is_async else "") + self.rng.choice([f"def {name}(self=None, *args):", f"def {name}(self=None, *args):",
+                                                                            f"def {name}(self=None, *args, timeout=10, port=None):",
+                                                                            f"def {name}(self=None, *args, timeout=10, port):"]))
         sub = "init" if (kind == "class" and name == "__init__") else "func"
         if sub == "init" or self.rng.random() < 0.35:
             self.body(sub, depth + 1, ind + 1)
@@ -1884,7 +1887,9 @@ class TGen:
     NAMES = ["a", "b", "c", "x", "_h", "__all__", "__init__", "self", "T", "property", "overload"]
     EXPRS = ["1", "a", "a.b", "a[0]", "f(x)", "(yield)", "lambda x=1, *a, k=2, **kw: x", "[i for i in a]", "{**a}", "a if b else c",
              "(y := 2)", "f'{a!r:>{b}}'", "...", "None", "'s'", "b'x'", "a @ b", "not a", "-a", "a < b < c", "{a: 1}", "{1, 2}", "(1,)",
-             "await g()", "[*a, 1]", "a[1:2, ::3]", "TYPE_CHECKING", "typing.TYPE_CHECKING", "os.__all__", "x.__all__ + ['a']"]
+             "await g()", "[*a, 1]", "a[1:2, ::3]", "TYPE_CHECKING", "typing.TYPE_CHECKING", "os.__all__", "x.__all__ + ['a']",
+             # lists of nodes with None placeholders (Dict.keys of a ** entry, kw_defaults of a keyword-only parameter without default)
+             "{'a': 1, **a}", "{**a, 'b': 2, **c}", "f(**{'k': 1, **a})", "lambda *, k=1, j: j", "lambda a, *b, c=1, d, e=2: 0", "[{1: 2, **a} for a in b]"]
     DECOS = ["property", "staticmethod", "classmethod", "overload", "typing.overload", "a.b.c", "a[0]", "(lambda f: f)", "x.setter", "x.deleter",
              "functools.cache", "functools.lru_cache(1)", "dataclasses.dataclass", "dataclass(frozen=True)", "f(x)(y)", "abc.abstractmethod",
              "property.setter", "a.setter.deleter", "__init__.setter", "cached_property", "functools.cached_property"]
@@ -1993,7 +1998,8 @@ class TGen:
                 self.emit(ind, "@" + r.choice(self.DECOS))
             name = "__init__" if kind == "init" else n()
             tp = r.choice(["", "", "[T]", "[T: (int, str), *Ts]"])
-            args = r.choice(["", "self", "self, x, /, y=1, *a, k, **kw", "cls, *, z: int = 2", "this", "x: 'int' = (lambda: 1)()"])
+            args = r.choice(["", "self", "self, x, /, y=1, *a, k, **kw", "cls, *, z: int = 2", "this", "x: 'int' = (lambda: 1)()",
+                             "self, *, timeout=10, port", "self, *a, k=1, j, m=2, **kw", "self, *, a, b=1"])
             ret = r.choice(["", " -> int", " -> 'str'", " -> None"])
             is_async = kind == "asyncdef" or (kind == "init" and r.random() < 0.1)
             self.emit(ind, f"{'async ' if is_async else ''}def {name}{tp}({args}){ret}:")
